@@ -1190,3 +1190,9 @@ func validChan(c string) bool {
 	}
 	return true
 }
+
+// GenConfig draws one member of the configuration family.
+func GenConfig(t *rapid.T) Config {
+	g := New(Options{})
+	return g.genConfig(t)
+}
